@@ -161,10 +161,13 @@ Fixpoint find_list (s : sel) (l : list node) (cur : option node) : list node * o
 Definition find_elems (s : sel) (elems : list node) : list node := fst (find_list s elems None).
 
 (* the value-level content of "this file is in Matches": its own header matches, or a section it
-   owns (reached without entering another file) does *)
+   owns (reached without entering another file) does.  (A volume below a section holds files only,
+   so the NVol case is [false] on every parsed tree; it is written so that the statement about
+   [find_node] holds for every value of type [node].) *)
 Fixpoint sec_hits (s : sel) (n : node) {struct n} : bool :=
   match n with
   | NSec h _ kids => pred_sec s h || existsb (sec_hits s) kids
+  | NVol _ _ kids => existsb (sec_hits s) kids
   | _ => false
   end.
 Definition fmatch (s : sel) (n : node) : bool :=
